@@ -262,6 +262,12 @@ def schedules(quick):
         ("first-generation-save-rename", "regen.validated#1=1200", [(150, "model", 1, "rename")]),
         ("first-generation-two-saves", "regen.validated#1=1200", [(150, "model", 1, "inplace"), (100, "model", 2, "inplace")]),
         ("first-generation-manifest-drop", "regen.validated#1=1200", [(150, "manifest-drop", 1, "inplace")]),
+        # a subdirectory is created and the regeneration that this triggers is held after it has read the package; the first model file of the new
+        # directory is saved meanwhile, and nothing is saved afterwards
+        ("forced-new-subdir-file-during-regeneration", "regen.validated#2=1200", [(0, "mkdir-sub", 1, ""), (400, "sub-file", 2, "inplace")]),
+        ("forced-new-subdir-file-during-regeneration-rename", "regen.validated#2=1200", [(0, "mkdir-sub", 1, ""), (400, "sub-file", 2, "rename")]),
+        ("forced-new-lib-subdir-file-during-regeneration", "regen.validated#2=1200", [(0, "mkdir-lib-sub", 1, ""), (400, "lib-sub-file", 2, "inplace")]),
+        ("new-subdir-then-file-later", "", [(0, "mkdir-sub", 1, ""), (600, "sub-file", 2, "inplace")]),
         # "manifest-": what an earlier _package.yml said must not survive in the running watcher. A section is removed and the removal settles; later saves must
         # leave that section's output alone. The last import is removed (the model no longer uses it); later saves must still be regenerated
         ("manifest-section-dropped-then-saves", "", [(0, "model", 1, "inplace"), (0, "settle", 0, ""), (0, "manifest-drop", 2, "inplace"), (0, "settle", 0, ""), (0, "snap-dropped", 0, ""),
@@ -408,6 +414,11 @@ def run(ctx):
                     libsub = "LibSub%d: !record\n  fields:\n    z: int\n" % v
                     os.makedirs(os.path.join(root, "lib/more"), exist_ok=True)
                     save(os.path.join(root, "lib/more/extra.yml"), libsub, how)
+                elif kind == "mkdir-sub":
+                    # an empty subdirectory appears in the package (the file in it follows in a later step)
+                    os.makedirs(os.path.join(root, "main/sub/deep"), exist_ok=True)
+                elif kind == "mkdir-lib-sub":
+                    os.makedirs(os.path.join(root, "lib/more"), exist_ok=True)
                 elif kind == "sub-dir-move-out":
                     os.rename(os.path.join(root, "main/sub"), os.path.join(root, "parked_sub"))
                     sub_saved, sub = sub, None
